@@ -15,10 +15,13 @@ pub struct Case {
 	pub stream: Vec<u8>,
 	pub c1: Choices,
 	pub c2: Choices,
+	/// dynamic sites sharing the bootstrap method of the first one (see gen::share_bsms); 0 = none
+	#[serde(default)]
+	pub share: u16,
 }
 
 fn strategy() -> impl Strategy<Value = Case> {
-	(class_stream(), choices(), choices()).prop_map(|(stream, c1, c2)| Case { stream, c1, c2 })
+	(class_stream(), choices(), choices(), prop_oneof![2 => Just(0u16), 1 => Just(0xffffu16), 1 => any::<u16>()]).prop_map(|(stream, c1, c2, share)| Case { stream, c1, c2, share })
 }
 
 pub fn first_diff(a: &CClass, b: &CClass) -> String {
@@ -199,7 +202,9 @@ pub fn nontrivial_class(m: &CClass) -> bool {
 }
 
 fn fidelity(case: &Case, obs: &mut Obs) -> PropResult {
-	let model = class_from_stream(&case.stream, 4, 40);
+	let mut model = class_from_stream(&case.stream, 4, 40);
+	let shared = crate::classfile::gen::share_bsms(&mut model, case.share);
+	obs.label_if(shared > 0, "dynamic_sites_sharing_a_bootstrap_method");
 	let canon = model.canon();
 	let mut projections: Vec<CClass> = Vec::new();
 	let mut forms_all: Vec<&'static str> = Vec::new();
